@@ -187,3 +187,38 @@ def _show_spec(exp):
     if exp["k"] == "ok":
         return repr(expected_env(exp))[:800]
     return exp["k"]
+
+
+def replay_prefixes(h, case):
+    """C10: the full program first (as replay_case), then every proper prefix: each binding a prefix makes
+    must be present with the same value in the full run, and equal to what the specification predicts."""
+    full = replay_case(h, case, check_ops=False)
+    if full["status"] in ("toolerr", "skip") or full.get("kind") == "crash":
+        return full
+    prog = case["prog"]
+    text = full["text"]
+    lines = text.rstrip("\n").split("\n")
+    exp_full = case["expect"]
+    pre_expect = case.get("prefix") or []
+    reqs = [{"op": "eval", "src": "\n".join(lines[:k]) + "\n", "strict": True} for k in range(1, len(lines))]
+    resps = h.batch(reqs) if reqs else []
+    fullobs = observed_outcome(h.req({"op": "eval", "src": text, "strict": True}))
+    for k, r in enumerate(resps, start=1):
+        obs = observed_outcome(r)
+        if obs[0] == "crash":
+            return {"status": "violation", "key": "crash:" + obs[2][:60], "text": text, "kind": "crash",
+                    "detail": {"prefix": k, "observed": obs}}
+        # against the specification's prediction for this prefix
+        if k - 1 < len(pre_expect):
+            a = agrees(pre_expect[k - 1], obs)
+            if a is False and full["status"] == "ok":
+                return {"status": "violation", "key": "prefix-value", "text": text, "kind": "prefix",
+                        "detail": {"prefix": k, "observed": _show(obs), "expected": _show_spec(pre_expect[k - 1])}}
+        # the property itself: bindings of the prefix survive unchanged in the whole program
+        if obs[0] == "ok" and fullobs[0] == "ok":
+            for n, v in obs[1].items():
+                if fullobs[1].get(n, ("<absent>",)) != v:
+                    return {"status": "violation", "key": "prefix-changed", "text": text, "kind": "prefix",
+                            "detail": {"prefix": k, "name": n, "in_prefix": repr(v), "in_full": repr(fullobs[1].get(n))}}
+    full["prefixes"] = len(resps)
+    return full
